@@ -26,6 +26,9 @@ use std::ops::Range;
 
 pub const CAP: usize = 8;
 
+/// the range most recently requested through TokenStream::text (ghost)
+pub static mut G_TEXT_RANGE: (usize, usize) = (0, 0);
+
 pub struct SymStream<'a> {
     pub kinds: [TokenKind; CAP],
     pub widths: [u8; CAP],
@@ -37,6 +40,8 @@ pub struct SymStream<'a> {
     pub has_err: bool,
     pub last_name_n: bool,
     pub eats: u32,
+    /// Eof has been delivered at least once
+    pub eof_seen: bool,
     pub _p: std::marker::PhantomData<&'a ()>,
 }
 
@@ -61,7 +66,7 @@ impl<'a> SymStream<'a> {
             i += 1;
         }
         SymStream { kinds, widths, name_n, n, pos: 0, cur: 0, has_err: false, last_name_n: false, eats: 0,
-                    _p: std::marker::PhantomData }
+                    eof_seen: false, _p: std::marker::PhantomData }
     }
     pub fn offset_of(&self, idx: usize) -> usize {
         let mut o = 0usize;
@@ -80,6 +85,7 @@ impl<'a> TokenStream for SymStream<'a> {
     fn eat(&mut self) -> TokenKind {
         self.eats += 1;
         if self.pos >= self.n {
+            self.eof_seen = true;
             return TokenKind::Eof;
         }
         let k = self.kinds[self.pos];
@@ -94,7 +100,10 @@ impl<'a> TokenStream for SymStream<'a> {
     fn cursor(&self) -> usize {
         self.cur
     }
-    fn text(&self, _range: Range<usize>) -> &str {
+    fn text(&self, range: Range<usize>) -> &str {
+        unsafe {
+            G_TEXT_RANGE = (range.start, range.end);
+        }
         if self.last_name_n { "N" } else { "M" }
     }
     fn take_error(&mut self) -> Option<EcoString> {
